@@ -39,6 +39,8 @@ POOL = ['Aa', 'Ab', 'B', 'Ba', 'C60', 'Cu2O', 'D', 'Diamond', 'E1', 'E10', 'E2',
         'J', 'K', 'KCl', 'L', 'LiF', 'M', 'N', 'NaCl', 'O', 'P', 'Q', 'R', 'Si', 'Si2', 'SiX', 'T', 'U', 'V', 'W_long_name_20_chars', 'X',
         'Y', 'Zz', 'a', 'ab', 'b', 'z', '_', '0']
 
+LONG_NAMES = ['W_long_name_20_charsA', 'W_long_name_20_charsB', 'W_long_name_20_chars_and_more', 'Quite_a_long_crystal_name_1', 'Quite_a_long_crystal_name_2']
+
 def dec(rng, lo, hi, nd=None):
     nd = rng.choice([0, 1, 2, 4, 6]) if nd is None else nd
     return ('%.' + str(nd) + 'f') % rng.uniform(lo, hi)
@@ -134,7 +136,7 @@ def parsed_tokens(spec):
 class Hist:
     """a history: ops are dicts; handles are indices into the caller's tables, renumbered on shrinking"""
     def __init__(self, ops, pool=None, kind='valid'):
-        self.ops = ops; self.pool = pool or POOL; self.kind = kind
+        self.ops = ops; self.pool = pool or (POOL + LONG_NAMES); self.kind = kind
 
     def lines(self, builtin_lines):
         out = list(builtin_lines) + ['pool ' + ' '.join(self.pool)]
@@ -255,6 +257,9 @@ def gen_history(rng, kind='valid', length=None):
         if r < 0.3:
             j = pick_obj()
             if j is not None: return 'O%d' % j
+        # names longer than the 20 characters a crystal FILE can carry enter through Crystal_AddCrystal only: different names that share
+        # their first 20 characters must stay different crystals (lookups and the duplicate test compare whole names)
+        if rng.random() < 0.06: return gen_crystal(rng, rng.choice(LONG_NAMES))
         return gen_crystal(rng, rng.choice(names))
     while len(ops) < length:
         r = rng.random()
